@@ -414,7 +414,7 @@ class DynGraph(nx.Graph):
                     app[-1][1] = t[1]
                     if max_end + 1 in self.time_to_edge and (u, v, "-") in self.time_to_edge[max_end + 1]:
                         del self.time_to_edge[max_end + 1][(u, v, "-")]
-                    if t[0] > app[-1][0] and (u, v, "+") in self.time_to_edge[t[0]]:
+                    if t[0] > app[-1][0] and t[0] in self.time_to_edge and (u, v, "+") in self.time_to_edge[t[0]]:
                         del self.time_to_edge[t[0]][(u, v, "+")]
 
                 elif max_end == t[0] - 1:
@@ -432,7 +432,7 @@ class DynGraph(nx.Graph):
                 elif t[1] <= max_end:
                     # the span is already covered by the last interval: nothing to store,
                     # and the events inserted above must not survive inside the run
-                    if t[0] > app[-1][0] and (u, v, "+") in self.time_to_edge[t[0]]:
+                    if t[0] > app[-1][0] and t[0] in self.time_to_edge and (u, v, "+") in self.time_to_edge[t[0]]:
                         del self.time_to_edge[t[0]][(u, v, "+")]
                     if e is not None and self.edge_removal and e <= max_end:
                         del self.time_to_edge[e][(u, v, "-")]
